@@ -102,6 +102,9 @@ func (c11) Gen(seed uint64, idx int, tier string) *Scenario {
 		sc.Reads = MarkEOF(sc.Reads, len(src))
 	}
 	sc.CloseErr = r.Chance(1, 8)
+	if sc.API == "UnmarshalFile" && r.Chance(1, 3) {
+		sc.SetInt("target", r.Range(1, 3))
+	}
 	if r.Chance(1, 6) {
 		sc.StatSize = r.Range(1, max(1, len(src)))
 	}
@@ -139,6 +142,7 @@ func (c11) Gen(seed uint64, idx int, tier string) *Scenario {
 			sc.Reads = append(sc.Reads, simio.ReadStep{})
 		}
 		sc.Reads[at].Err = true
+		sc.Reads[at].Wrap = r.Chance(1, 4)
 		sc.Reads[at].Zero = false
 		if r.Chance(1, 2) {
 			sc.Reads[at].N = 0 // no data with the error
@@ -197,6 +201,17 @@ func checkPipeBasics(t *testing.T, prop string, sc *Scenario, res *PipeResult, o
 	if res.FS.Closes != 1 {
 		o.viol(prop, "close-count", fmt.Sprintf("closes=%d", res.FS.Closes),
 			fmt.Sprintf("Close was called %d times by the time the bubble was quiescent (want exactly 1)", res.FS.Closes), withChoices())
+	}
+	readPending := false
+	for _, g := range res.PendAtRet {
+		if strings.HasPrefix(g, "file.read") {
+			readPending = true
+		}
+	}
+	if readPending || res.FS.ReadCalls > res.ReadCallsAtRet {
+		o.viol(prop, "read-outlives-call", "a Read of the input is pending or begins after the call has returned",
+			fmt.Sprintf("%s returned while a goroutine it started was still inside (or later entered) Read: %d Read calls had begun at the return, %d in the end; how long that goroutine lives is up to the reader",
+				sc.API, res.ReadCallsAtRet, res.FS.ReadCalls), withChoices())
 	}
 	if res.LateWrites > 0 {
 		o.viol(prop, "late-write", "the library writes to the caller's writers after the call has returned",
